@@ -102,3 +102,26 @@ Theorem srun_placed c : Forall bndw c -> forall Psi b,
   srun (map (relabelf f) c) Psi b = srun c (fun y => Psi (push w b y)) (pull w b).
 Proof. intros W Psi b. rewrite <- (push_pull b) at 1. now apply srun_placed_gen. Qed.
 End Place.
+
+(* ---------- consequences used by the placed multi-controlled gates ---------- *)
+Section PlaceMore.
+Variable f : nat -> nat.
+Variable w : nat.
+Hypothesis f_inj : forall i j, i < w -> j < w -> f i = f j -> i = j.
+
+Lemma push_flipq b x t : t < w -> push f w b (flipq t x) = flipq (f t) (push f w b x).
+Proof.
+  intros Ht. unfold flipq. rewrite (push_upd f w f_inj) by auto. now rewrite (get_push_in f w f_inj) by auto.
+Qed.
+Lemma push_flips b ts : (forall t, In t ts -> t < w) -> forall x, push f w b (flips ts x) = flips (map f ts) (push f w b x).
+Proof.
+  induction ts as [|t ts IH]; intros H x. reflexivity.
+  cbn [flips map]. rewrite IH by (intros; apply H; now right). f_equal. apply push_flipq. apply H. now left.
+Qed.
+Lemma forallb_pull (F : nat -> bool -> bool) l b : (forall i, In i l -> i < w) ->
+  forallb (fun i => F i (get (pull f w b) i)) l = forallb (fun i => F i (get b (f i))) l.
+Proof.
+  intros H. induction l as [|i l IH]; auto. simpl. rewrite get_pull_in by (apply H; now left).
+  f_equal. apply IH. intros j Hj. apply H. now right.
+Qed.
+End PlaceMore.
